@@ -882,7 +882,8 @@ def body(ck: common.Check):
             k += 1
             m = Fraction(ans["model"][0], ans["model"][1])
             e = expected_fitness(case, x)
-            if e is not None and m != e:
+            if e is not None and m != e and not (isinstance(e, float) and feq(m, e)):
+                # (the oracle falls back to float arithmetic on some NaN-weight cases: equal within 1e-12 is agreement)
                 raise common.InfraError(f"python oracle {e} and Lean fitnessTotal {m} disagree on {case}")
             if e is not None and "fitness" in impl and not feq(impl["fitness"][i], m):
                 ck.disagreement("fitness", case, impl["fitness"][i], ans["model"])
